@@ -6,10 +6,16 @@ P=$1; OUT=$2; WT=$3; shift 3
 CHECKS=${@:-$P}
 for k in $(ls $OUT | sort); do
   [ -f $OUT/$k/patch.diff ] || continue
-  n=1; while [ -d seeded/$P-$n ]; do n=$((n+1)); done
-  id=$P-$n
-  mkdir -p seeded/$id; cp $OUT/$k/* seeded/$id/
+  id=$(grep -l "\"from\": \"$OUT/$k\"" seeded/$P-*/meta.json 2>/dev/null | head -1 | xargs -r dirname | xargs -r basename)
+  if [ -z "$id" ]; then
+    n=1; while [ -d seeded/$P-$n ]; do n=$((n+1)); done
+    id=$P-$n
+    mkdir -p seeded/$id; cp $OUT/$k/* seeded/$id/
+    python3 -c "
+import json
+p='seeded/$id/meta.json'; m=json.load(open(p)); m['from']='$OUT/$k'; json.dump(m,open(p,'w'),indent=1)"
+  fi
   echo "=== $id (from $OUT/$k)"
   tools/confirm_seeded.sh $id $WT
-  tools/test_mutation.sh $WT seeded/$id/patch.diff $CHECKS
+  tools/test_mutation.sh $WT $(pwd)/seeded/$id/patch.diff $CHECKS
 done
